@@ -190,7 +190,7 @@ def run(ctx):
 def replay(ctx, rec):
     c = rec["case"]
     if "a" not in c:
-        return True
+        raise core.CannotReplay("no executable case in this replay file")
     p = ctx.path("seeds.json")
     seeds = [{"n": c["n"], "a": c["a"], "d": c["d"]}]
     with open(p, "w") as f:
